@@ -129,8 +129,28 @@ def check_brute_force(case):
     by_name = {w["name"]: w for w in vocab}
     target = [["s", 0]]
     want = 3 if case["many"] else 1
-    results = list(itertools.islice(
-        brute_force(*lib, target=specs.ty("rigid", target)), want))
+    # step bound (not a time bound): count the parse attempts of the search
+    from discopy.grammar import pregroup
+    original, calls = pregroup.eager_parse, [0]
+    cap = (len(vocab) + 1) ** 4
+
+    class StepCap(Exception):
+        pass
+
+    def counting(*args, **kwargs):
+        calls[0] += 1
+        if calls[0] > cap:
+            raise StepCap()
+        return original(*args, **kwargs)
+    pregroup.eager_parse = counting
+    try:
+        results = list(itertools.islice(
+            brute_force(*lib, target=specs.ty("rigid", target)), want))
+    except StepCap:
+        raise Violation("C18:brute-force-missed", "no {} sentences within {} "
+                        "parse attempts over {}".format(want, cap, vocab))
+    finally:
+        pregroup.eager_parse = original
     require(len(results) == want, "C18:brute-force-missed", str(vocab))
     cups = 0
     for d in results:
